@@ -104,6 +104,8 @@ func (fr *frame) get(key ssa.Value) value {
 var sentinelText = map[string]string{
 	"net/http.ErrAbortHandler": "net/http: abort Handler",
 	"io.EOF":                   "EOF",
+	"context.Canceled":         "context canceled",
+	"context.DeadlineExceeded": "context deadline exceeded",
 	"io.ErrUnexpectedEOF":      "unexpected EOF",
 	"net/http.ErrBodyNotAllowed": "http: request method or response status code does not allow body",
 	"net/http.ErrHandlerTimeout": "http: Handler timeout",
@@ -121,7 +123,7 @@ func sentinelError(i *interpreter, g *ssa.Global) value {
 	if n, ok := t.(*types.Named); !ok || n.Obj().Name() != "error" || n.Obj().Pkg() != nil {
 		return nil
 	}
-	if !strings.HasPrefix(g.Name(), "Err") && g.Name() != "EOF" {
+	if !strings.HasPrefix(g.Name(), "Err") && g.Name() != "EOF" && !(g.Pkg.Pkg.Path() == "context" && (g.Name() == "Canceled" || g.Name() == "DeadlineExceeded")) {
 		return nil
 	}
 	full := g.Pkg.Pkg.Path() + "." + g.Name()
@@ -631,6 +633,8 @@ func call(i *interpreter, caller *frame, callpos token.Pos, fn value, args []val
 		return callRtypeMethod(caller, fn, args)
 	case *hostMethod:
 		return callHostMethod(caller, fn, args[1:])
+	case *hostFunc:
+		return fn.f(caller, args)
 	}
 	panic(engineErr{fmt.Sprintf("cannot call %T", fn)})
 }
@@ -657,6 +661,12 @@ func callMethod(i *interpreter, caller *frame, recv iface, name string, args ...
 		}
 	}
 	panic(engineErr{fmt.Sprintf("callMethod: %v has no method %s", recv.t, name)})
+}
+
+// hostFunc is a function value implemented by the engine (e.g. the cancel
+// function of context.WithCancel).
+type hostFunc struct {
+	f func(fr *frame, args []value) value
 }
 
 // opaquePkgs are modelled only through their stubs: running their real code on
